@@ -129,6 +129,107 @@ def gen_long_case(rng):
     return case
 
 
+def gen_derive_case(rng):
+    """lookup / derive / lookup chains: name lookups on the current table (they
+    build its row-name cache), a derivation of the Table API that makes a new
+    table object the current one (t + t, t + t.rows[..], t * k, _copy, rows[..],
+    cols[..], Table.concatenate, _t), then lookups on the RESULT over the whole
+    range of occurrence numbers of its own index column (names only in the
+    appended part, negative counts, counts beyond the source's occurrences,
+    writes by name::-1, get_index_unique), repeated 1-3 times"""
+    alpha = NAMES[:rng.choice([2, 3, 3])]
+    n = rng.randint(1, 8)
+    idx = [rng.choice(alpha) for _ in range(n)]
+    cols = [[COLS[i], [rng.randint(-50, 50) for _ in range(n)]] for i in range(rng.choice([0, 1, 2]))]
+    case = {"idx": idx, "cols": cols, "ops": [], "derive": True}
+    cur, present, transposed, concatenated = list(idx), [c for c, _ in cols], False, False
+
+    def sel():
+        m = len(cur)
+        if rng.random() < 0.6:
+            l = [rng.randint(-m, m - 1) if rng.random() < 0.97 else m for _ in range(rng.randint(0, min(m + 1, 5)))]
+            ok = all(-m <= i < m for i in l)
+            return ["poslist", l], ([cur[i] for i in l] if ok else None)
+        lo, hi = rng.choice([None, rng.randint(-m - 1, m + 1)]), rng.choice([None, rng.randint(-m - 1, m + 1)])
+        return ["slice", lo, hi], cur[slice(lo, hi)]
+
+    def lookups(k, writes=True):
+        out = []
+        names = sorted(set(cur)) + (["zz"] if rng.random() < 0.2 else [])
+        for _ in range(k):
+            name = rng.choice(names)
+            m = cur.count(name)
+            cnt = rng.choice([rng.randint(-m - 1, m), m - 1, -m, -1, 0, rng.randint(0, max(m - 1, 0)), None])
+            off = rng.choice([0, 0, 0, 1, -1])
+            z = rng.random()
+            if z < 0.45 or cnt is None:
+                r = ["str", name + ("" if cnt is None else f"::{cnt}") + (f">>{off}" if off > 0 else f"<<{-off}" if off < 0 else "")]
+            elif z < 0.75:
+                r = ["tup2", name, cnt]
+            else:
+                r = ["tup3", name, cnt, off]
+            y = rng.random()
+            if y < 0.5:
+                out.append([rng.choice(["getindex", "floordiv"]), r])
+            elif y < 0.8 or not writes:
+                out.append(["getcell", rng.choice(["name"] + ([] if transposed else present)), r])
+            else:
+                v = rng.choice(sorted(set(cur)))
+                out.append(["setcell", "name", r, v])
+                # keep the generator's picture of the column in step (best effort; verdicts never use it)
+                ps = [i for i, x in enumerate(cur) if x == name]
+                c = 0 if cnt is None else cnt
+                if c < 0:
+                    c += len(ps)
+                if 0 <= c < len(ps) and -len(cur) <= ps[c] + off < len(cur):
+                    cur[ps[c] + off] = v
+        if rng.random() < 0.4:
+            out.append(["unique"])
+        return out
+
+    for _ in range(rng.randint(1, 3)):
+        case["ops"] += lookups(rng.randint(1, 4), writes=rng.random() < 0.3)      # on the source: builds its cache
+        kinds = ["d_addself", "d_addself", "d_addrows", "d_addrows", "d_mul", "d_mul", "d_copy", "d_rows"]
+        if not transposed:
+            # Table.concatenate orders the columns by iterating a set: no _t (whose index column
+            # is the column list) after it
+            kinds += ["d_cols", "d_concat", "d_concat"] + ([] if concatenated else ["d_t"])
+        kd = rng.choice(kinds)
+        if len(cur) > 40 and kd in ("d_addself", "d_addrows", "d_mul", "d_concat"):
+            kd = "d_rows"
+        if kd == "d_addself":
+            case["ops"].append([kd]); cur = cur + cur
+        elif kd == "d_addrows":
+            s, r = sel()
+            case["ops"].append([kd, s]); cur = cur + r if r is not None else cur
+        elif kd == "d_mul":
+            k = rng.choice([0, 1, 2, 2, 3])
+            case["ops"].append([kd, k]); cur = cur * k if k > 0 else cur
+        elif kd == "d_copy":
+            case["ops"].append([kd])
+        elif kd == "d_rows":
+            s, r = sel()
+            case["ops"].append([kd, s]); cur = list(r) if r is not None else cur
+        elif kd == "d_cols":
+            keep = [c for c in present if rng.random() < 0.6]
+            rng.shuffle(keep)
+            case["ops"].append([kd, keep]); present = keep
+        elif kd == "d_concat":
+            ss, ok, add = [], True, []
+            for _ in range(rng.randint(0, 2)):
+                s, r = sel()
+                ss.append(s); ok = ok and r is not None; add += r or []
+            case["ops"].append([kd, ss]); cur = cur + add if ok else cur
+            concatenated = True
+        else:
+            case["ops"].append([kd, ["name"] + present])      # the labels: column names of the source
+            cur, transposed = ["name"] + present, True
+        if not cur:
+            break
+        case["ops"] += lookups(rng.randint(3, 8))                                    # on the derived table
+    return case
+
+
 def small_scope_cases(maxlen):
     """every index column over a 3-name alphabet up to maxlen x every
     name/count/offset selector form (exhaustive for C07's lookup clause)."""
@@ -213,6 +314,42 @@ def emit_case(case, results, N):
     return f"({t}, {clist([emit_op(o, N) for o in case['ops']])}, {clist(rs)})"
 
 
+def emit_idx(s):
+    if s[0] == "poslist":
+        return f"(IArr {clist([cz(x) for x in s[1]])})"
+    return f"(ISlice {copt(s[1], cz)} {copt(s[2], cz)})"
+
+
+def emit_dop(op, N):
+    k = op[0]
+    if k == "d_addself":
+        return "DAddSelf"
+    if k == "d_addrows":
+        return f"DAddRows {emit_idx(op[1])}"
+    if k == "d_mul":
+        return f"DMul {cz(op[1])}"
+    if k == "d_copy":
+        return "DCopy"
+    if k == "d_rows":
+        return f"DRows {emit_idx(op[1])}"
+    if k == "d_cols":
+        return f"DCols {clist([cn(N('col:' + c)) for c in op[1]])}"
+    if k == "d_concat":
+        return f"DConcat {clist([emit_idx(x) for x in op[1]])}"
+    if k == "d_t":
+        return f"DT {clist([cn(N(c)) for c in op[1]])}"
+    return f"DOp ({emit_op(op, N)})"
+
+
+def emit_dcase(case, results, N):
+    rs = [emit_result(r, N) for r in results]
+    if any(r is None for r in rs):
+        return None
+    t = f"(mkTable {clist([cn(N(x)) for x in case['idx']])} " + \
+        clist([f"({cn(N('col:' + c))}, {clist([cz(v) for v in vals])})" for c, vals in case["cols"]]) + " None)"
+    return f"({t}, {clist([emit_dop(o, N) for o in case['ops']])}, {clist(rs)})"
+
+
 def nontrivial(case):
     """a mutation of the index column followed by a name-based lookup, on a
     column with a repeated name"""
@@ -247,26 +384,36 @@ def correspondence(ctx, cases, tag):
     texts, index_of = [], []
     unrepresentable = []
     # at most 250 cases per file, and few long tables per file (weight = rows x operations)
-    groups, curg, wsum = [], [], 0
-    for i, c in enumerate(cases):
-        wgt = (len(c["idx"]) + 5) * (len(c["ops"]) + 1)
-        if curg and (len(curg) >= 250 or wsum + wgt > 60000):
-            groups.append(curg); curg, wsum = [], 0
-        curg.append(i); wsum += wgt
-    if curg:
-        groups.append(curg)
+    groups = []
+    for derive in (False, True):       # lookup/derive/lookup chains use the evaluator of model/TableDerive.v
+        curg, wsum = [], 0
+        for i, c in enumerate(cases):
+            if bool(c.get("derive")) != derive:
+                continue
+            wgt = (len(c["idx"]) + 5) * (len(c["ops"]) + 1) * (4 if derive else 1)
+            if curg and (len(curg) >= 250 or wsum + wgt > 60000):
+                groups.append(curg); curg, wsum = [], 0
+            curg.append(i); wsum += wgt
+        if curg:
+            groups.append(curg)
     for chunk_id, chunk in enumerate(groups):
         N = vlib.Interner()
         items, ids = [], []
+        derive = bool(cases[chunk[0]].get("derive"))
         for i in chunk:
-            e = emit_case(cases[i], results[i], N)
+            e = (emit_dcase if derive else emit_case)(cases[i], results[i], N)
             if e is None:
                 unrepresentable.append(i)
             else:
                 items.append(e); ids.append(i)
-        texts.append("From Coq Require Import List ZArith NArith.\nFrom XD Require Import model.Table run.RunTable.\n"
-                     "Import ListNotations.\nDefinition cases : list tcase :=\n " + clist(items).replace("); (mkTable", ");\n (mkTable") +
-                     ".\nEval vm_compute in (mismatches cases).\n")
+        if derive:
+            texts.append("From Coq Require Import List ZArith NArith.\nFrom XD Require Import model.Table model.TableSel model.TableDerive run.RunTableDerive.\n"
+                         "Import ListNotations.\nDefinition cases : list dcase :=\n " + clist(items).replace("); (mkTable", ");\n (mkTable") +
+                         ".\nEval vm_compute in (dmismatches cases).\n")
+        else:
+            texts.append("From Coq Require Import List ZArith NArith.\nFrom XD Require Import model.Table run.RunTable.\n"
+                         "Import ListNotations.\nDefinition cases : list tcase :=\n " + clist(items).replace("); (mkTable", ");\n (mkTable") +
+                         ".\nEval vm_compute in (mismatches cases).\n")
         index_of.append(ids)
     mism = list(unrepresentable)
     for (rc, so, se), ids in zip(vlib.coq_eval_files(ctx, texts, tag), index_of):
@@ -306,13 +453,17 @@ def run(ctx):
                 "{a,b,c} up to length 3 (quick) / 5 (thorough) x every name/count/offset selector, plus 48 (quick) / 600 (thorough) long "
                 "tables (17..200 rows over 2-4 names so that every name repeats many times; object and fixed-width unicode index columns; "
                 "non-ASCII and case-variant names): 30+ lookups name::k / (name,k) / (name,k,off) over the whole range of k incl. negative "
-                "and out of range, get_index_unique, then the same after renaming a row / replacing the column; non-trivial = an index-column "
+                "and out of range, get_index_unique, then the same after renaming a row / replacing the column; plus 500 (quick) / 8000 (thorough) "
+                "lookup / derive / lookup chains: name lookups on the current table, then t+t, t+t.rows[..], t*k, _copy, rows[..], cols[..], "
+                "Table.concatenate or _t makes a new table object current, then lookups, writes by name::count and get_index_unique on the result "
+                "over the whole range of occurrence numbers of ITS index column, 1-3 times; non-trivial = an index-column "
                 "mutation followed by a name-based lookup; distinct by (table, ops)")
-    proof_ok = vlib.standard_proof_part(ctx, "props/C07.v", allowed_axioms=(), extra_targets=["run/RunTable.vo"])
+    proof_ok = vlib.standard_proof_part(ctx, "props/C07.v", allowed_axioms=(), extra_targets=["run/RunTable.vo", "run/RunTableDerive.vo"])
     n = ctx.pick(600, 12000)
     cases = small_scope_cases(ctx.pick(3, 5)) + [gen_case(ctx.rng) for _ in range(n)]
     # long tables last and few per case file (the literals are long)
     cases += [gen_long_case(ctx.rng) for _ in range(ctx.pick(48, 600))]
+    cases += [gen_derive_case(ctx.rng) for _ in range(ctx.pick(500, 8000))]
     results, oracle, orc_fail, mism = correspondence(ctx, cases, "c")
     ctx.samples = [{"case": cases[-1], "impl_results": results[-1]}, {"case": cases[len(cases) // 2], "impl_results": results[len(cases) // 2]}]
     dist = {}
@@ -327,7 +478,8 @@ def run(ctx):
     ctx.cov["input_distribution"] = {"ops": dist, "errors_observed": errs, "cases": len(cases),
                                      "rows_hist": {str(k): sum(1 for c in cases if len(c["idx"]) == k) for k in range(0, 13)},
                                      "long_tables_17_to_200_rows": sum(1 for c in cases if len(c["idx"]) >= 17),
-                                     "unicode_index_columns": sum(1 for c in cases if c.get("idx_dtype") == "unicode")}
+                                     "unicode_index_columns": sum(1 for c in cases if c.get("idx_dtype") == "unicode"),
+                                     "lookup_derive_lookup_chains": sum(1 for c in cases if c.get("derive"))}
     ctx.obligations.append(("correspondence: model = implementation on every generated history", not mism, f"{len(mism)} mismatching cases"))
     ctx.obligations.append(("oracle: linear scan of the current index column agrees with the implementation", not orc_fail, f"{len(orc_fail)} failing cases"))
     if orc_fail:
@@ -342,7 +494,7 @@ def run(ctx):
         if mism:
             what.append(f"correspondence model/Table.v vs xdeps.table.Table broke on {len(mism)} cases, first: {json.dumps(cases[mism[0]])} impl={json.dumps(results[mism[0]])}")
         # bounded search for a concrete failing input with the oracle at thorough size
-        extra = [gen_case(ctx.rng) for _ in range(4000)]
+        extra = [gen_case(ctx.rng) for _ in range(3000)] + [gen_derive_case(ctx.rng) for _ in range(1500)]
         parts = list(vlib.chunks(extra, 250))
         found = None
         for p in parts:
